@@ -28,7 +28,7 @@ def run(prop, tier, seed, t0, replay):
             outs.append((p.returncode, p.stdout, p.stderr))
     else:
         def work(w):
-            rc_, out_, err_ = core.run_timed([binp, str(w), str(nw), tier, str(seed)], env, 900 if tier == "quick" else 3600)
+            rc_, out_, err_ = core.run_timed([binp, str(w), str(nw), tier, str(seed)], env, 240 if tier == "quick" else 3600)
             return rc_, out_, err_
         with ThreadPoolExecutor(nw) as ex:
             outs = list(ex.map(work, range(nw)))
